@@ -214,6 +214,8 @@ def check_setup_parser(model: Model, report: Report, rule: str) -> None:
                 prob = f"file mode in {t} is not {w['mode']}"
             elif name == "--file" and "'w'" in t:
                 prob = f"the document file is opened for writing ({t})"
+            elif name == "--file" and "'rb'" not in t and '"rb"' not in t:
+                prob = f"the document file is not opened in binary mode ({t}): json.load then sees text decoded with one fixed encoding, so documents in the other JSON encodings (UTF-8 with a byte order mark, UTF-16, UTF-32), which it detects itself on bytes, are refused"
         if "type" in w and w["type"] is None and kw(c, "type") is not None:
             prob = f"type is {kw(c, 'type')}: the query text would be transformed"
         if "default" in w and kw(c, "default") != w["default"]:
